@@ -153,8 +153,11 @@ fn map_parop<T: El + Send + Sync>(w: &mut MapWorld<T>, op: usize) -> VResult<u64
             let n = w.next_key;
             // fresh keys, keys already in the map, and keys that occur several times in the input
             // with different values (the last one must win, whatever the split schedule)
-            let mut items: Vec<(u32, u32)> = (n..n + 20).map(|k| (k, 1)).collect();
-            items.extend(want.iter().take(5).map(|&(k, v)| (k, (v + 1) % 3)));
+            // (a batch of 20 fresh keys; every fourth state instead a large one of 1100, past any batch-size
+            // threshold in the glue - the keys already in the map come again with changed values either way)
+            let fresh = if !T::ZST && want.len() % 4 == 1 { 1100 } else { 20 };
+            let mut items: Vec<(u32, u32)> = (n..n + fresh).map(|k| (k, 1)).collect();
+            items.extend(want.iter().take(if fresh > 20 { usize::MAX } else { 5 }).map(|&(k, v)| (k, (v + 1) % 3)));
             for round in 0..3u32 {
                 items.insert((round as usize * 7) % items.len(), (n + 3, round));
                 items.push((n + 1, (round + 2) % 3));
